@@ -162,6 +162,8 @@ func runCheck(prop, tier string) int {
 		return checkSrcsim(prop, tier)
 	case "C05":
 		return checkC05(tier)
+	case "C10":
+		return checkC10(tier)
 	case "C11":
 		return checkC11(tier)
 	case "C16":
